@@ -195,8 +195,9 @@ impl DocumentBuilder<'_> {
     /// - `existing_field_signatures`: field signatures the type
     ///   already commits to. A pick whose closure would overwrite any
     ///   of them is rejected.
-    /// - `self_name`: the type's own name when set, so a candidate
-    ///   whose closure loops back at this type is rejected.
+    /// - `self_name`: the type's own name when set. The interfaces it
+    ///   already implements are not picked again, and a candidate whose
+    ///   closure loops back at this type is rejected.
     ///
     /// Returns only the newly accepted interfaces and their transitive
     /// parents.
